@@ -355,6 +355,11 @@ func execute(c *explore.Chooser, cf cfg, t *explore.T) *explore.Fail {
 		return nil
 	}
 	finished = true
+	// "The received non-nil bufio.Reader should be returned to the inner pool with the PutReader()
+	// function after use": the caller does so whenever it got one, whatever the error says
+	if out.br != nil {
+		ws.PutReader(out.br)
+	}
 	// ---- safety at return
 	if out.err == nil {
 		if w.closed {
@@ -436,6 +441,9 @@ func mkPeer(kind, key string) peerScript {
 	switch kind {
 	case "responsive1":
 		return peerScript{name: kind, chunks: [][]byte{resp}, silentAt: -1}
+	case "responsive1+frames":
+		// the server's first frame travels in the same segment as its response: Dial hands a reader back
+		return peerScript{name: kind, chunks: [][]byte{append(append([]byte{}, resp...), 0x81, 0x02, 'h', 'i')}, silentAt: -1}
 	case "responsive3":
 		a, b := len(resp)/3, 2*len(resp)/3
 		return peerScript{name: kind, chunks: [][]byte{resp[:a], resp[a:b], resp[b:]}, silentAt: -1}
@@ -462,7 +470,7 @@ func main() {
 	runtime.GOMAXPROCS(2)
 	explore.Main("C20", func(r *explore.Run) {
 		var cfgs []cfg
-		peers := []string{"responsive1", "silent0", "responsive3", "silent1", "error400", "eof", "refusal-cut-then-silent", "accept-cut-then-silent"}
+		peers := []string{"responsive1", "responsive1+frames", "silent0", "responsive3", "silent1", "error400", "eof", "refusal-cut-then-silent", "accept-cut-then-silent"}
 		for _, ck := range []string{"background", "cancellable", "deadline"} {
 			for _, to := range []string{"none", "short", "long"} {
 				for _, p := range peers {
@@ -514,6 +522,70 @@ func main() {
 				return coinRuns(t, 200)
 			})
 			t.Note("the runtime's choice between ready select cases cannot be forced; both branches are covered one at a time by E1; here the unforced race is sampled and every outcome must satisfy the same safety oracle")
+		})
+		r.Part("E3-stock-dialer-on-loopback(supplementary,real-time)", func(t *explore.T) {
+			// Dialer.NetDial left nil, as in the documented default: the library's own net.Dialer
+			// connects to a real loopback listener that accepts and then says nothing. Dialer.Timeout
+			// (200 ms) must end the dial although the caller's context (20 s) is still alive. The only
+			// timing judgement is "before the caller's context ended", a factor of 100 away.
+			for _, ctxKind := range []string{"background", "deadline-20s", "cancellable"} {
+				ctxKind := ctxKind
+				t.Do(func() string {
+					return fmt.Sprintf("stock net.Dialer, silent loopback peer, Dialer.Timeout=200ms, caller context %s", ctxKind)
+				}, func() *explore.Fail {
+					ln, err := net.Listen("tcp", "127.0.0.1:0")
+					if err != nil {
+						t.Outcome("no-loopback(not judged)")
+						return nil
+					}
+					defer ln.Close()
+					var held []net.Conn
+					var hmu sync.Mutex
+					go func() {
+						for {
+							c, err := ln.Accept()
+							if err != nil {
+								return
+							}
+							hmu.Lock()
+							held = append(held, c)
+							hmu.Unlock()
+						}
+					}()
+					defer func() {
+						hmu.Lock()
+						for _, c := range held {
+							c.Close()
+						}
+						hmu.Unlock()
+					}()
+					ctx := context.Background()
+					var cancel context.CancelFunc = func() {}
+					switch ctxKind {
+					case "deadline-20s":
+						ctx, cancel = context.WithTimeout(ctx, 20*time.Second)
+					case "cancellable":
+						ctx, cancel = context.WithCancel(ctx)
+						tm := time.AfterFunc(20*time.Second, cancel)
+						defer tm.Stop()
+					}
+					defer cancel()
+					d := ws.Dialer{Timeout: 200 * time.Millisecond}
+					start := time.Now()
+					conn, _, _, derr := d.Dial(ctx, "ws://"+ln.Addr().String()+"/chat")
+					took := time.Since(start)
+					if derr == nil {
+						conn.Close()
+						return explore.Failf("dial-to-a-silent-peer-succeeds", "")
+					}
+					if ctx.Err() != nil || took > 15*time.Second {
+						return explore.Failf("Dialer.Timeout-does-not-bound-the-handshake-with-the-stock-dialer", "Dial returned %v after %v: only when the caller's context ended, not after Dialer.Timeout", derr, took)
+					}
+					t.Outcome("ended-by-Dialer.Timeout")
+					return nil
+				})
+			}
+			t.Note("real TCP on 127.0.0.1 and real time; supplements E1, whose transport is always a harness NetDial")
 		})
 	})
 	_ = os.Getenv
